@@ -68,6 +68,66 @@ theorem entry_revokedPublicKeyByFileErr :
 theorem entry_failedPasswordAuth :
     entryOf "failedPasswordAuth" = some (interp failedPasswordAuthRE entry_failedPasswordAuth) := rfl
 
+/-! ### the two functions of the extended shape -/
+
+/-- the event a descriptor builds -/
+def mkEv (p : Pat) (d : EntryDesc) (cfg : Cfg) (pid : Str) (caps : List Str) : Ev :=
+  let ev := EVal.eval p cfg pid caps
+  { typ := d.typ, outcome := d.outcome, component := d.component,
+    srcType := ev d.srcType, srcValue := ev d.srcValue,
+    srcExtra := d.srcExtra.map fun kv => (kv.1, ev kv.2),
+    subjects := d.subjects.map fun kv => (kv.1, ev kv.2),
+    target := d.target.map fun kv => (kv.1, ev kv.2),
+    data := [],
+    metaExtra := d.metaExtra.map fun kv => (kv.1, ev kv.2) }
+
+/-- the capture groups a descriptor reads -/
+def capsOf (d : EntryDesc) : List String :=
+  ([d.srcType, d.srcValue] ++ (d.srcExtra ++ d.subjects ++ d.target ++ d.metaExtra).map (·.2)).filterMap fun
+    | .cap g => some g
+    | _ => none
+
+/-- the extended shape: the PID parsed first (nothing happens if it is not a number), captures that are taken
+without a guard (an absent group is an index-out-of-range panic, before anything is counted or written), a counter
+between the event and its write, and the hand-off of the login after a successful write -/
+def interpX (p : Pat) (fn : String) (d : EntryDescX) : EntryFn := fun cfg pid line ok h =>
+  let body : Int → Out := fun n =>
+    match find p line with
+    | none => ⟨[], .nil⟩
+    | some (_, _, caps) =>
+      if d.unguarded && !((capsOf d.base).all fun g => (p.group g caps).isSome) then ⟨[], .panic⟩ else
+      let pre := if d.incFirst then incAt fn 0 else []
+      match d.send with
+      | none => let o := writeOnly (mkEv p d.base cfg pid caps) ok; ⟨pre ++ o.effs, o.res⟩
+      | some c => writeAndSend pre (mkEv p d.base cfg pid caps) ok h n (EVal.eval p cfg pid caps c)
+  if d.atoiFirst then
+    match atoi pid with
+    | none => ⟨[], .nil⟩
+    | some n => body n
+  else body 0
+
+theorem entry_processAcceptedPasswordEntry :
+    entryOf "processAcceptedPasswordEntry" =
+      some (interpX passwordLoginRE "processAcceptedPasswordEntry" entryX_processAcceptedPasswordEntry) := by
+  rfl
+
+theorem entry_processInvalidUserEntry :
+    entryOf "processInvalidUserEntry" =
+      some (interpX invalidUserRE "processInvalidUserEntry" entryX_processInvalidUserEntry) := by
+  show some invalidUser = _
+  congr 1
+  funext cfg pid line ok h
+  simp only [invalidUser, interpX, entryX_processInvalidUserEntry, Bool.false_eq_true, if_false, Bool.true_and, if_true]
+  cases find invalidUserRE line with
+  | none => rfl
+  | some r =>
+    obtain ⟨a, b, caps⟩ := r
+    simp only
+    cases hu : invalidUserRE.group "Username" caps <;> cases hs : invalidUserRE.group "Source" caps <;>
+      cases hp : invalidUserRE.group "Port" caps <;>
+      simp [capsOf, Gen.entry_processInvalidUserEntry, hu, hs, hp, mkEv, EVal.eval, grp, loginEv, target, subj3, unknown,
+        writeOnly]
+
 /-- every descriptor names the expression its function was paired with above -/
 theorem entries_expressions :
     Gen.entries.map (fun x => (x.1, x.2.re)) =
@@ -80,10 +140,10 @@ theorem entries_expressions :
        ("userInDenyUsers", "userInDenyUsersRE"), ("userNonExecutableShell", "userNonExecutableShellRE"),
        ("userNonExistentShell", "userNonExistentShellRE"), ("userNotInAnyGroup", "userNotInAnyGroupRE")] := by decide
 
-/-- what is not translated: exactly the four functions that do more than match-and-write -/
+/-- what is not translated: the two functions with slicing / certificate parsing / JSON extra data; and what is translated in the extended shape -/
 theorem untranslated :
-    Gen.untranslatedEntries.map (·.1) =
-      ["processAcceptPublicKeyEntry", "processAcceptedPasswordEntry", "processCertificateInvalidEntry",
-       "processInvalidUserEntry"] := by decide
+    Gen.untranslatedEntries.map (·.1) = ["processAcceptPublicKeyEntry", "processCertificateInvalidEntry"] ∧
+    Gen.entriesX.map (fun x => (x.1, x.2.base.re)) =
+      [("processAcceptedPasswordEntry", "passwordLoginRE"), ("processInvalidUserEntry", "invalidUserRE")] := by decide
 
 end AM.C06E
